@@ -649,6 +649,24 @@ func (a *absFn) structItv(v ssa.Value, block int) Itv {
 				if l.Hi >= posInf {
 					res.Hi = posInf
 				}
+			} else if r.Lo > 0 && r.Hi < posInf {
+				// truncated division with a possibly negative dividend
+				lo, hi := int64(negInf), int64(posInf)
+				if l.Lo > negInf {
+					if l.Lo < 0 {
+						lo = l.Lo / r.Lo
+					} else {
+						lo = l.Lo / r.Hi
+					}
+				}
+				if l.Hi < posInf {
+					if l.Hi >= 0 {
+						hi = l.Hi / r.Lo
+					} else {
+						hi = l.Hi / r.Hi
+					}
+				}
+				res = Itv{lo, hi}
 			} else {
 				return tr
 			}
